@@ -138,6 +138,9 @@ func (w *world) deliverSync(e syncEvt) {
 				}
 				nb.allocs[na.id()] = na
 			}
+			if old != nil && old.host != "" && nb.host != "" && old.host != nb.host {
+				w.c.Count("blocks_moved_between_nodes_in_place", 1)
+			}
 			if nb.host != "" && nonNil == 0 {
 				nb.emptySince = w.vnow
 				if old != nil && old.emptySince >= 0 {
